@@ -125,7 +125,8 @@ def _build(b, kind, x, rng):
         o = b.fm([n, -(-h // s), -(-w // s), oc], dt)
         ops.append(Op("CONV_2D", ins, [o], ("Conv2DOptions", dict(Padding=0, StrideW=s, StrideH=s, DilationWFactor=d, DilationHFactor=d,
                                                                    FusedActivationFunction=rng.choice([0, 1, 3])))))
-        return [o], ("stride4" if s == 4 else None)
+        # stride 4 violates the stride criteria only when the OFM is higher than one row
+        return [o], ("stride4" if s == 4 and -(-h // s) > 1 else None)
     if kind in ("DEPTHWISE_CONV_2D", "DEPTHWISE_CONV_2D_DEPTH1"):
         mult = 1
         if kind == "DEPTHWISE_CONV_2D_DEPTH1":
@@ -379,7 +380,7 @@ def rejected_op(b, cur, feats, live, kind=None):
 # --force-symmetric-int-weights: convolutions that stay on the CPU for ANOTHER reason must keep their weight quantisation
 
 
-def fsym_op(b, cur, feats, live, variant=None):
+def fsym_op(b, cur, feats, live, variant=None, zstyle=None, const=None, why=None):
     """CONV_2D / DEPTHWISE_CONV_2D / FULLY_CONNECTED with asymmetric int8 weights that is kept off the NPU by something
     else (stride 4, non-constant weights, batched input ...).  The network asks for --force-symmetric-int-weights."""
     rng = b.rng
@@ -389,8 +390,8 @@ def fsym_op(b, cur, feats, live, variant=None):
     n, h, w, c = xt.shape
     dt = xt.dtype
     op = variant or rng.choice(["conv", "conv", "dw", "fc", "conv_shared"])
-    zstyle = rng.choice(["tensor127", "tensor-128", "tensor3", "axis", "axis", "axis_ends", "axis_one"])
-    const = rng.random() < 0.6
+    zstyle = zstyle or rng.choice(["tensor127", "tensor-128", "tensor3", "axis", "axis", "axis_ends", "axis_one"])
+    const = rng.random() < 0.6 if const is None else const
     oc = rng.choice([2, 4, 8]) if op != "dw" else c
     per_axis = zstyle.startswith("axis") and op != "fc" and oc >= 2
     nq = oc if per_axis else 1
@@ -413,15 +414,19 @@ def fsym_op(b, cur, feats, live, variant=None):
     else:
         wt = b.net.add(T(b.fresh("input"), wshape, "int8", ws, wz, qdim))
         b.net.inputs.append(wt)
-    why = "dyn_weights" if not const and rng.random() < 0.5 else rng.choice(["stride4", "stride4", "batch2"])
-    s = 4 if why == "stride4" else 1
+    why = why or ("dyn_weights" if not const and rng.random() < 0.5 else rng.choice(["stride4", "stride4", "batch2"]))
+    if why == "dyn_weights" and const:
+        why = "stride4"
+    if why == "stride4" and h <= 4 and op != "dw":
+        why = "batch2"          # a convolution with stride 4 and a one-row OFM is accepted
     x = cur
     if why == "batch2":
         x = _to_batch2(b, cur)
         if x is None:
-            x, s, why = cur, 4, "stride4"
-    if const and why == "dyn_weights":
-        s, why = 4, "stride4"
+            if h <= 4 and op != "dw":
+                return None
+            x, why = cur, "stride4"
+    s = 4 if why == "stride4" else 1
     xs = b.t(x).shape
     bias = _bias(b, oc, dt, nq)
     if op == "fc":
